@@ -30,7 +30,7 @@ TARGETS = ["IbicusModel.Props.C02", "IbicusModel.Lemmas.GenDebiasers"]  # the au
 GEN = ["Debiasers"]
 
 SHIFTS = [0.5, -0.5, 3.0, -3.0, 1e3, -1e3]
-FACTORS = [0.5, 2.0, 10.0]
+FACTORS = [0.5, 2.0, 10.0, 250.0, 1.0 / 400.0]  # the extreme factors expose a clipped change factor (seeded C02-1)
 DEB_FAMILIES = ["LS", "DC", "QM", "ECDFM", "QDM", "SDMabs", "CDFt"]
 ISI_CONFIGS = ["tas_detr", "tas_nodetr", "tas_ks", "tas_nosigtest", "tas_npqm", "tas_hazen", "tas_ela"]
 CDFT_PAIRS = [("linear_interpolation", "linear"), ("step_function", "inverted_cdf"), ("linear_interpolation", "hazen"),
@@ -192,7 +192,7 @@ def oracle(rng, n_cases, res, problems):
                                      f"(max deviation {dev:.3g} > tol {tol:.3g})", {**case, "what": "shift", "c": c, "index": i}))
                     break
         else:
-            for kf in rng.sample(FACTORS, 2):
+            for kf in rng.sample(FACTORS[:3], 1) + rng.sample(FACTORS[3:], 1):
                 out = run_loc(mk(w, y, e), o, h, f * kf, dates_used)
                 dev = float(np.max(np.abs(out - kf * base)))
                 tol = 1e-8 * (1 + kf) * (1 + float(np.abs(base).max()))
@@ -303,6 +303,122 @@ def isimip_trend_oracle(rng, n_cases, res, problems):
                                      f"(max deviation {dev2:.3g})", {**case, "what": "isimip-linear-trend", "b": b}))
 
 
+# ------------------------------------------------------------------ the same identities through the public `apply`
+DTYPES = ["float64", "float32", "int64", "int32"]
+
+
+def apply_oracle(rng, n_cases, res, problems):
+    """`Debiaser.apply` on [time, 1, 1] / [time, 1, 2] grids with float64 / float32 / int64 / int32 (and mixed) inputs: the result
+    must be a floating array and the shift / scale / mean-change identities must hold exactly as for `apply_location`
+    (the input check converts integer data to float before anything is computed or allocated).  Integer-valued (hence tied)
+    data only with transfer functions that are continuous in the data: LinearScaling, DeltaChange, parametric QuantileMapping
+    (norm), ECDFM (norm), SDM absolute (norm) — rank / ecdf based methods legitimately sit on float-rounding
+    discontinuities at tied values."""
+    import scipy.stats
+
+    from ibicus.debias import DeltaChange, ECDFM, LinearScaling, QuantileMapping, ScaledDistributionMapping
+
+    norm = scipy.stats.norm
+    cfs = {
+        "LinearScaling/additive": ("add", lambda w: LinearScaling.from_variable("tas", delta_type="additive", **w)),
+        "DeltaChange/additive": ("add", lambda w: DeltaChange.from_variable("tas", delta_type="additive", **w)),
+        "QuantileMapping/additive-parametric": ("add", lambda w: QuantileMapping.from_variable(
+            "tas", distribution=norm, mapping_type="parametric", detrending="additive", **w)),
+        "ECDFM": ("add", lambda w: ECDFM.from_variable("tas", distribution=norm, **w)),
+        "ScaledDistributionMapping/absolute": ("add", lambda w: ScaledDistributionMapping.from_variable(
+            "tas", distribution=norm, mapping_type="absolute", **w)),
+        "LinearScaling/multiplicative": ("mult", lambda w: LinearScaling.from_variable("pr", delta_type="multiplicative", **w)),
+        "DeltaChange/multiplicative": ("mult", lambda w: DeltaChange.from_variable("pr", delta_type="multiplicative", **w)),
+        "QuantileMapping/multiplicative-parametric": ("mult", lambda w: QuantileMapping.from_variable(
+            "tas", distribution=norm, mapping_type="parametric", detrending="multiplicative", **w)),
+    }
+    names = list(cfs)
+    samples = res.extra.setdefault("oracle_samples", [])
+
+    def run_apply(deb, o, h, f, times):
+        with warnings.catch_warnings(), np.errstate(all="ignore"):
+            warnings.simplefilter("ignore")
+            return deb.apply(o, h, f, progressbar=False, **times)
+
+    for k in range(n_cases):
+        name = names[k % len(names)]
+        kind, mk = cfs[name]
+        nprs = np.random.RandomState(rng.randint(0, 2**31 - 1))
+        ncell = rng.choice([1, 2])
+        n = 365 * rng.randint(2, 3) + rng.randint(0, 20)
+        y0 = rng.randint(1955, 2060)
+        dO, dH, dF = (probes.dates_from(datetime.date(y, 1, 1), n) for y in (y0, y0, y0 + 40))
+        cols = []
+        for _ in range(ncell):
+            o, h, f = probes.tas_like(nprs, dO, 283, 3), probes.tas_like(nprs, dH, 285.3, 4), probes.tas_like(nprs, dF, 288.4, 4)
+            if kind == "mult":  # positive, tens to hundreds (so that whole numbers keep the structure)
+                o, h, f = (np.exp((x - 283.0) / 6.0) * 40.0 + 1.0 for x in (o, h, f))
+            cols.append((o, h, f))
+        arrs = [np.stack([c[i] for c in cols], axis=1).reshape(n, 1, ncell) for i in range(3)]
+        dts = [rng.choice(DTYPES) for _ in range(3)]
+        if k % 3 == 0:
+            dts[2] = rng.choice(["int64", "int32"])  # an integer cm_future in a third of the cases
+        obs, hist, fut = (np.round(a).astype(dt) if dt.startswith("int") else a.astype(dt) for a, dt in zip(arrs, dts))
+        rw = rng.random() < 0.4
+        w = dict(running_window_mode=rw, running_window_length=rng.choice([31, 61]), running_window_step_length=rng.choice([15, 31]))
+        times = dict(time_obs=dO, time_cm_hist=dH, time_cm_future=dF) if rng.random() < 0.5 else {}
+        f32 = "float32" in dts
+        scale = float(max(np.abs(a.astype(float)).max() for a in (obs, hist, fut)))
+        case = {"config": name, "via": "apply", "grid": [1, ncell], "dtypes": {"obs": dts[0], "cm_hist": dts[1], "cm_future": dts[2]},
+                "window": w, "explicit_time": bool(times), "n_time": n, "case": k, "seed": C.seed(), "what": "apply"}
+        try:
+            base = run_apply(mk(w), obs, hist, fut, times)
+        except Exception as ex:  # noqa: BLE001
+            problems.append((f"{name}: apply raises {type(ex).__name__} on well-formed {dts} input: {str(ex)[:120]}", {**case, "what": "apply-exception"}))
+            continue
+        n_before = len(problems)
+        dtype_bad = not np.issubdtype(base.dtype, np.floating)  # reported below unless the identities themselves already fail
+        if not np.all(np.isfinite(base)):
+            res.extra["skipped_nonfinite"] = res.extra.get("skipped_nonfinite", 0) + 1
+            continue
+        if kind == "add":
+            for c in (rng.choice([0.4, 2.5, -0.5, 1e3 + 0.25]), rng.choice([3, -3])):  # a non-integer shift and an integer control
+                fut_c = fut + c if not (f32 and dts[2] == "float32") else (fut.astype(np.float64) + c)
+                out = run_apply(mk(w), obs, hist, fut_c, times)
+                dev = float(np.max(np.abs(out.astype(float) - base.astype(float) - c)))
+                tol = 2e-5 * (1 + abs(c) + scale) if f32 else 1e-8 * (1 + abs(c) + scale)
+                res.count(("apply-shift", name, tuple(dts), ncell, rw, bool(times), c), True)
+                if len([x for x in samples if x.get("via") == "apply"]) < 1 and dts[2].startswith("int"):
+                    samples.insert(0, {**case, "c": c, "max_dev": dev, "tol": tol})
+                if not (dev <= tol and np.issubdtype(out.dtype, np.floating)):
+                    problems.append((f"{name} via apply, dtypes obs/cm_hist/cm_future = {dts}: apply(cm_future + {c}) - apply(cm_future) deviates from "
+                                     f"{c} by up to {dev:.3g} (tol {tol:.3g}; result dtypes {base.dtype}, {out.dtype})",
+                                     {**case, "what": "apply-shift", "c": c}))
+                    break
+        else:
+            for kf in (rng.choice([0.5, 2.5, 1.0 / 400.0]), rng.choice([2, 10, 250])):
+                fut_k = fut * kf if not (f32 and dts[2] == "float32") else (fut.astype(np.float64) * kf)
+                out = run_apply(mk(w), obs, hist, fut_k, times)
+                dev = float(np.max(np.abs(out.astype(float) - kf * base.astype(float))))
+                tol = (2e-5 if f32 else 1e-8) * (1 + kf) * (1 + float(np.abs(base).max()))
+                res.count(("apply-scale", name, tuple(dts), ncell, rw, bool(times), kf), True)
+                if not (dev <= tol and np.issubdtype(out.dtype, np.floating)):
+                    problems.append((f"{name} via apply, dtypes obs/cm_hist/cm_future = {dts}: apply(k*cm_future) deviates from k*apply(cm_future), "
+                                     f"k={kf}, by up to {dev:.3g} (tol {tol:.3g}; result dtypes {base.dtype}, {out.dtype})",
+                                     {**case, "what": "apply-scale", "k": kf}))
+                    break
+        if dtype_bad and len(problems) == n_before:
+            problems.append((f"{name}: apply returns dtype {base.dtype} for cm_future of dtype {dts[2]} (debiased values are truncated to integers)",
+                             {**case, "what": "apply-result-dtype"}))
+        if name.startswith(("LinearScaling", "DeltaChange")) and not rw:
+            res.count(("apply-meanchange", name, tuple(dts)), True)
+            o64, h64, f64, b64 = (a.astype(float) for a in (obs, hist, fut, base))
+            if kind == "add":
+                lhs, rhs = b64.mean(axis=0) - o64.mean(axis=0), f64.mean(axis=0) - h64.mean(axis=0)
+                bad = np.max(np.abs(lhs - rhs)) > (2e-5 if f32 else 1e-9) * (1 + scale)
+            else:
+                lhs, rhs = b64.mean(axis=0) / o64.mean(axis=0), f64.mean(axis=0) / h64.mean(axis=0)
+                bad = np.max(np.abs(lhs - rhs)) > (2e-5 if f32 else 1e-9) * (1 + float(np.abs(rhs).max()))
+            if bad:
+                problems.append((f"{name} via apply, dtypes {dts}: change of the time mean relative to obs {lhs.ravel().tolist()} != simulated change "
+                                 f"{rhs.ravel().tolist()}", {**case, "what": "apply-mean-change"}))
+
+
 def ecdfm_beta_note(rng):
     """informational (never a verdict): ECDFM's *default* family for tas is scipy.stats.beta, fitted by numerical maximum
     likelihood; the fit of a shifted sample is the shifted fit only up to the optimiser's tolerance, so the shift passes through
@@ -378,6 +494,7 @@ def run(tier, res, force_search=False):
     problems = []
     oracle(rng, n_or, res, problems)
     isimip_trend_oracle(rng, n_or // 3, res, problems)
+    apply_oracle(rng, (2 * n_or) // 3, res, problems)
     if not quick:
         res.extra["ecdfm_default_beta_fit"] = ecdfm_beta_note(rng)
 
